@@ -265,6 +265,7 @@ def main(argv=None):
     ap.add_argument("--save", default=None, help="directory for replay files of the findings")
     ap.add_argument("--risky", action="store_true",
                     help="random plans also use the trivia known to break the library (see render.TriviaPlan.risky)")
+    ap.add_argument("--risky-only", default="", help="comma-separated subset of the risky trivia to use")
     ap.add_argument("-v", "--verbose", action="store_true")
     a = ap.parse_args(argv)
     t0 = time.time()
@@ -361,7 +362,9 @@ def main(argv=None):
         case["plans"] = []
         for k in range(2):
             pl = random_plan(rng)
-            if a.risky:
+            if a.risky_only:
+                pl.risky = [x for x in a.risky_only.split(",") if x]
+            elif a.risky:
                 pl.risky = ["hash-in-line-comment", "empty-line-comment", "quote-include", "block-comment-same-line"]
             dist["newline"][repr(pl.newline)] += 1
             j = Job(i, "plan%d" % k, render(p0, pl), {"plan": pl})
